@@ -301,6 +301,11 @@ func Spec(big int) []Node {
 		ns = append(ns, Node{Rel: deep, Kind: "dir", Mode: 0o755})
 	}
 	ns = append(ns, Node{Rel: deep + "/bottom", Kind: "file", Mode: 0o644, Data: text("bottom", 40)})
+	// a source whose path is at most 100 bytes when written relative to the tree and longer when written absolutely
+	ns = append(ns, Node{Rel: "longsrc", Kind: "dir", Mode: 0o755})
+	ns = append(ns, Node{Rel: LongSrcDir, Kind: "dir", Mode: 0o755})
+	ns = append(ns, Node{Rel: LongSrcDir + "/payload.bin", Kind: "file", Mode: 0o644, Data: Noise(3000, 4242)})
+	ns = append(ns, Node{Rel: LongSrcDir + "/settings.conf", Kind: "file", Mode: 0o640, Data: text("long source settings", 60)})
 	ns = append(ns, Node{Rel: "samename", Kind: "dir", Mode: 0o755})
 	for _, a := range []string{"amd64", "arm64", "riscv64"} {
 		ns = append(ns, Node{Rel: "samename/" + a, Kind: "dir", Mode: 0o755})
@@ -327,6 +332,9 @@ const (
 	WideFiles  = 1500
 	DeepLevels = 40
 )
+
+// LongSrcDir is a directory whose files have relative paths of 85-95 bytes.
+const LongSrcDir = "longsrc/a-directory-name-of-seventy-bytes-so-that-paths-cross-one-hundred-00"
 
 // DeepPath is the path of the deep/ chain below the fixture root down to level n.
 func DeepPath(n int) string {
